@@ -90,17 +90,19 @@ class PostgreSQLQueryBuilder(QueryBuilder):
                 self._return_other(self.wrap_constant(term, self._wrapper_cls))
 
     def _validate_returning_term(self, term: Term) -> None:
-        for field in term.fields_():
-            if not any([self._insert_table, self._update_table, self._delete_from]):
-                raise QueryException("Returning can't be used in this query")
+        # (also for terms without any field, e.g. a constant)
+        if not any([self._insert_table, self._update_table, self._delete_from]):
+            raise QueryException("Returning can't be used in this query")
 
+        for field in term.fields_():
             table_is_insert_or_update_table = field.table in {
                 self._insert_table,
                 self._update_table,
             }
-            join_tables = set(
+            # a join without criterion (cross join) contributes its item only
+            join_tables = {j.item for j in self._joins} | set(
                 itertools.chain.from_iterable(
-                    [j.criterion.tables_ for j in self._joins]  # type:ignore[attr-defined]
+                    [j.criterion.tables_ for j in self._joins if hasattr(j, "criterion")]
                 )
             )
             join_and_base_tables = set(self._from) | join_tables
@@ -128,6 +130,8 @@ class PostgreSQLQueryBuilder(QueryBuilder):
 
     def _return_field_str(self, term: str | Field) -> None:
         if term == "*":
+            if not any([self._insert_table, self._update_table, self._delete_from]):
+                raise QueryException("Returning can't be used in this query")
             self._set_returns_for_star()
             self._returns.append(Star())
             return
